@@ -3,14 +3,15 @@
 (a) engine E2: breadth-first search over the radius-management rules of the real ``TrustRegion``
     (update_radius, the short-step reduction of the main loop, enhance_resolution);
 (c) engine E1 monitors: every iteration of real runs.
-(The control-skeleton part (b) lives in the E3 check of C07/C18 when available.)
+(b) engine E3: the same invariants and "status 0 only at radius_final" on every control path of the real main
+    loop run against a scripted back end (mc/e3.py, mc/ctrl.py).
 """
 import itertools
 import math
 
 import numpy as np
 
-from .. import alpha, common, e1, e1prop, e2, oracles
+from .. import alpha, common, ctrl, e1, e1prop, e2, oracles
 
 cobyqa = common.bind_repo()
 import cobyqa.framework as cframework  # noqa: E402
@@ -257,6 +258,9 @@ def run_case(case):
     if case.get("engine") == "E2-count":
         v, _ = count_reductions()
         return {"viol": [x for x in v if x["case"] == case], "stats": {}, "digests": [common.sha(case)]}
+    if case.get("stub"):
+        return e1prop.run_case_generic(case, ctrl.invariants, menu=ctrl.menu, horizon=ctrl.horizon,
+                                       extra_stats=ctrl.stats)
     return e1prop.run_case_generic(case, e1_oracle, extra_stats=_e1_stats)
 
 
@@ -270,14 +274,14 @@ def execute(tier, seed, limit=0):
         agg.errors.append((None, err))
     v, ncount = count_reductions()
     agg.viol.extend(v)
-    rts = alpha.permute(e1_roots(tier), seed)
+    rts = alpha.permute(e1_roots(tier) + ctrl.roots(tier), seed)
     if limit:
         rts = rts[:limit]
     for out in common.run_roots(__import__("mc.props.c18", fromlist=["x"]), rts):
         agg.add(out)
     s = agg.stats
     herr = []
-    for k in ("iterations_checked", "removals_checked", "runs_with_penalty", "status_0"):
+    for k in ("iterations_checked", "removals_checked", "runs_with_penalty", "status_0", "ctrl_runs", "ctrl_status_0"):
         if not s.get(k):
             herr.append(f"non-vacuity counter {k} is zero")
     if not res["flags"].get("at_final"):
@@ -296,7 +300,9 @@ def execute(tier, seed, limit=0):
                        "every (constants on their boundary lattice) x (radius_init, radius_final) configuration; "
                        "traces_validated_against_impl counts iterations of real runs at which the same invariants, "
                        "the penalty and the centre were checked through monitors",
-        "real_runs": {k: int(v) for k, v in sorted(s.items()) if isinstance(v, (int, float))},
+        "real_runs": {k: int(v) for k, v in sorted(s.items()) if isinstance(v, (int, float)) and not k.startswith("site_")},
+        "control_skeleton": {"executions": int(s.get("ctrl_runs", 0)), "choice_points": int(s.get("ctrl_choice_points", 0)),
+                             "deviation_bound": 2 if tier == "quick" else 3},
         "evaluations": int(res["transitions"] + s.get("runs", 0)), "distinct_nontrivial": int(res["states"]),
     }
     return agg, cov, herr, rts
